@@ -184,6 +184,7 @@ type calleeEnv struct {
 
 func (ex *Exec) contractEnv(c *Contract, callee *ssa.Function, sig *types.Signature, recv Term, recvT types.Type, args []Term, st, old *State) *Env {
 	env := &Env{ex: ex, vars: map[string]tv{}, st: st, old: old}
+	env.entryAlloc = ex.sc.declare("pre:"+compAlloc, SInt)
 	if callee != nil && len(callee.Params) == 0 && (sig.Params().Len() > 0 || sig.Recv() != nil) {
 		// external function without a body: bind by signature
 		off := 0
@@ -585,7 +586,7 @@ type FnResult struct {
 
 func (V *Verifier) newExec(fn *ssa.Function) *Exec {
 	V.compSorts = map[string]string{}
-	ex := &Exec{V: V, sc: newScript(), root: fn, notes: map[string]bool{}, counts: map[string]int{}}
+	ex := &Exec{V: V, sc: newScript(), root: fn, notes: map[string]bool{}, counts: map[string]int{}, lkRequired: map[string]bool{}, lkInit: map[string]bool{}}
 	ex.sc.axiom(app(SBool, ">", ex.sc.declare("pre:"+compAlloc, SInt), intLit(0)))
 	ex.regComp(compAlloc, SInt)
 	ex.regComp("G:clock", SInt)
@@ -595,6 +596,17 @@ func (V *Verifier) newExec(fn *ssa.Function) *Exec {
 func (V *Verifier) verifyFunction(fn *ssa.Function, lockMode bool) *FnResult {
 	ex := V.newExec(fn)
 	ex.lockMode = lockMode
+	// a context privileged for the hook window is exempt from the state lock (documented protocol)
+	V.lockExempt = func(ex *Exec, f *frame, st *State) Term {
+		for i, p := range f.fn.Params {
+			if p.Name() == "ctx" && typeStr(p.Type()) == "*core.Context" && i < len(f.params) {
+				pt := p.Type().Underlying().(*types.Pointer).Elem()
+				l := &Loc{kind: "obj", typ: types.Typ[types.String], ref: f.params[i], root: pt, path: "privilege"}
+				return and(not(eq(f.params[i], intLit(0))), eq(ex.load(st, l), strLit("hook")))
+			}
+		}
+		return tFalse
+	}
 	sc := ex.sc
 	f := ex.newFrame(fn, "")
 	c := V.contracts[funcName(fn)]
@@ -620,6 +632,7 @@ func (V *Verifier) verifyFunction(fn *ssa.Function, lockMode bool) *FnResult {
 	f.params = params
 	if c != nil {
 		env := ex.frameEnv(f, entry, entry)
+		ex.inRequires = true
 		for _, group := range [][]Clause{c.Requires, c.Entry} {
 			for _, r := range group {
 				v, err := env.trans(r.Expr)
@@ -629,6 +642,7 @@ func (V *Verifier) verifyFunction(fn *ssa.Function, lockMode bool) *FnResult {
 				sc.assert(v.t)
 			}
 		}
+		ex.inRequires = false
 	}
 	if c != nil {
 		for _, sa := range c.Sites {
@@ -1037,7 +1051,7 @@ func (V *Verifier) modSet(fn *ssa.Function) map[string]bool {
 
 // contractWrites: component-level over-approximation of a contract's modifies clause (used only for inferred sets).
 func (V *Verifier) contractWrites(ct *Contract, d map[string]bool) {
-	if len(ct.Modifies) > 0 {
+	if len(ct.Modifies) > 0 || len(ct.AlsoMods) > 0 {
 		d["?contract:"+ct.Key] = true
 	}
 }
@@ -1247,6 +1261,49 @@ func (V *Verifier) loopMods(fn *ssa.Function, li *loopInfo) []string {
 	return V.expandMods(d)
 }
 
+// contractComps: component-level over-approximation of what a contract's modifies clause can touch.
+// star=true means "the whole heap" (lock and ghost components excepted).
+func (V *Verifier) contractComps(ct *Contract) (comps map[string]bool, star bool) {
+	comps = map[string]bool{}
+	for _, it := range append(append([]string{}, ct.Modifies...), ct.AlsoMods...) {
+		switch {
+		case it == "*" || it == "everything":
+			star = true
+		case strings.HasPrefix(it, "allbut("):
+			pfx := strings.Split(strings.TrimSuffix(strings.TrimPrefix(it, "allbut("), ")"), "|")
+			for c := range V.compSorts {
+				if c == compAlloc || strings.HasPrefix(c, "LK:") || strings.HasPrefix(c, "LA:") || strings.HasPrefix(c, "G:") {
+					continue
+				}
+				skip := false
+				for _, p := range pfx {
+					if strings.HasPrefix(c, strings.TrimSpace(p)) {
+						skip = true
+					}
+				}
+				if !skip {
+					comps[c] = true
+				}
+			}
+		case it == "calls" || strings.HasPrefix(it, "calls("):
+			for c := range V.compSorts {
+				if strings.HasPrefix(c, "G:calls:") {
+					comps[c] = true
+				}
+			}
+		case strings.HasPrefix(it, "comp("):
+			comps[strings.Trim(strings.TrimSuffix(strings.TrimPrefix(it, "comp("), ")"), `"`)] = true
+		default:
+			if g, ok := V.specs.ghosts[it]; ok {
+				comps["G:"+g.Name] = true
+			} else {
+				star = true // object-level item: not resolvable without the call's arguments
+			}
+		}
+	}
+	return comps, star
+}
+
 // expandMods turns wildcard / contract entries into concrete registered component names.
 func (V *Verifier) expandMods(d map[string]bool) []string {
 	out := map[string]bool{}
@@ -1256,20 +1313,13 @@ func (V *Verifier) expandMods(d map[string]bool) []string {
 			return []string{"*"}
 		case strings.HasPrefix(k, "?contract:"):
 			ct := V.contracts[strings.TrimPrefix(k, "?contract:")]
-			// conservative: heap-wide havoc; ghost state only where the contract names it
-			for _, it := range append(append([]string{}, ct.Modifies...), ct.AlsoMods...) {
-				if g, ok := V.specs.ghosts[it]; ok {
-					out["G:"+g.Name] = true
-				}
-				if it == "calls" || strings.HasPrefix(it, "calls(") {
-					for c := range V.compSorts {
-						if strings.HasPrefix(c, "G:calls:") {
-							out[c] = true
-						}
-					}
-				}
+			cs, star := V.contractComps(ct)
+			for c := range cs {
+				out[c] = true
 			}
-			out["?"+ct.Key] = true
+			if star {
+				out["?"+ct.Key] = true
+			}
 		case strings.HasSuffix(k, ".*") && strings.HasPrefix(k, "F:"):
 			pfx := strings.TrimSuffix(k, "*")
 			for c := range V.compSorts {
